@@ -1,10 +1,107 @@
-(* C07 — O2Jam .ojn reading.  Property theorems only. *)
+(* C07 — O2Jam .ojn reading.  Property theorems only: each is closed by [exact] from Proofs/ or Base/
+   (table obligations and concrete witnesses by vm_compute). *)
 From Coq Require Import ZArith QArith List Bool.
 From RV Require Import Base.PyNum Base.Bytes Formats.O2J Formats.O2JSpec Generated.Tables Proofs.O2JProofs.
 Import ListNotations.
+Open Scope Q_scope.
 
-(* table obligations, re-checked against the tables regenerated from the live classes on every run *)
+(* ---- table obligations, re-checked against the tables regenerated from the live classes on every run ---- *)
 Theorem C07_layout_is_reference : Tables.c07.layout = ref_layout.
 Proof. vm_compute. reflexivity. Qed.
 Theorem C07_layout_sums_to_300 : layout_total Tables.c07.layout = 300%Z.
 Proof. vm_compute. reflexivity. Qed.
+Theorem C07_channels_are_reference :
+  (Tables.c07.ch_bpm_change, Tables.c07.col_range_start, Tables.c07.col_range_stop, Tables.c07.col_channels,
+   Tables.c07.kind_hit, Tables.c07.kind_hold_head, Tables.c07.kind_hold_tail)
+  = (ref_ch_tempo, ref_ch_col0, (ref_ch_col_last + 1)%Z, map (fun c => (ref_ch_col0 + c)%Z) columns,
+     ref_kind_tap, ref_kind_head, ref_kind_tail).
+Proof. vm_compute. reflexivity. Qed.
+
+(* ---- bytes: struct "<i" / "<h" decoding inverts the encoding on the whole range ---- *)
+Theorem C07_le_int32_roundtrip : forall v, (- 2 ^ 31 <= v < 2 ^ 31)%Z -> le_int32 (enc_int32 v) = Some v.
+Proof. exact le_int32_roundtrip. Qed.
+Theorem C07_le_int16_roundtrip : forall v, (- 2 ^ 15 <= v < 2 ^ 15)%Z -> le_int16 (enc_int16 v) = Some v.
+Proof. exact le_int16_roundtrip. Qed.
+Theorem C07_le_bytes_injective : forall l, bytes_ok l = true -> le_encode (length l) (le_unsigned l) = l.
+Proof. exact le_encode_unsigned. Qed.
+
+(* ---- binary32: inf/nan rejected; value 0 exactly for +-0; sign bit negates; sign clear => >= 0 ---- *)
+Theorem C07_f32_rejects_inf_nan : forall w, f32_exp w = 255%Z <-> f32_of_bits w = None.
+Proof. exact f32_rejects_inf_nan. Qed.
+Theorem C07_f32_zero_iff : forall w v, (0 <= w < 2 ^ 32)%Z -> f32_of_bits w = Some v -> (v == 0 <-> (w mod 2 ^ 31 = 0)%Z).
+Proof. exact f32_zero_iff. Qed.
+Theorem C07_f32_sign_flip : forall w, (0 <= w < 2 ^ 31)%Z ->
+  f32_val (w + 2 ^ 31) == - f32_val w /\ f32_exp (w + 2 ^ 31) = f32_exp w.
+Proof. exact f32_sign_flip. Qed.
+Theorem C07_f32_nonneg : forall w v, (0 <= w < 2 ^ 31)%Z -> f32_of_bits w = Some v -> 0 <= v.
+Proof. exact f32_nonneg. Qed.
+
+(* ---- ojn_notes_denote / ojn_tempo_times, algorithmic core, ALL inputs:
+   the repaired sweep (read_pkgs_fixed's loop) started on header tempo [init] and ANY list of tempo events
+   [bpms] (non-zero values), for ANY ascending list of note measures, never fails, gives every note
+   measure the integral of the beat length up to it, and gives the tempo events their running times ---- *)
+Theorem C07_fixed_sweep_is_integration : forall init bpms, ~ init == 0 -> bpms_nonzero bpms ->
+  forall nms, sorted_q nms ->
+  exists s dict s2,
+    sweep_fixed nms (mkSweep 0 0 init bpms [] None) [] = Some (s, dict)
+    /\ tail_fixed (sw_rest s) s = Some s2
+    /\ Forall (fun kv => snd kv == ojn_time init bpms (fst kv)) dict /\ map fst dict = nms
+    /\ Forall2 Qeq (sw_done s2) (times_go (0, 0, init) bpms).
+Proof. exact fixed_sweep_correct. Qed.
+
+(* ... and for tempo events sorted by position the running time of each is the integral at its own
+   position (so tempo events after the last note, and several at one position, are timed correctly) *)
+Theorem C07_tempo_time_is_integral : forall l t p0 b, sorted_pos p0 l ->
+  Forall2 (fun tm x => tm == ojn_time_go t p0 b l (fst x)) (times_go (t, p0, b) l) l.
+Proof. exact tempo_time_is_integral. Qed.
+
+(* ---- the oracle evaluated on implementation outputs soundly implies the declarative specification ---- *)
+Theorem C07_specb_sound : forall tol f out, specb tol f out = true -> OjnSpec tol f out.
+Proof. exact specb_sound. Qed.
+
+(* ---- the pinned tree: refuted, with witnesses that are replayed on the implementation
+        (corpus/C07/*.json); guarded form ---- *)
+Theorem C07_ojn_tempo_times_refuted :
+  wf_file w_sweep = true /\ exists o, read_now (encode_file w_sweep) = Some o /\ specb 0 w_sweep (Some o) = false
+  /\ map om_bpms (os_maps o) = [[mkBpm 0 120; mkBpm 0 240]; [mkBpm 0 120]; [mkBpm 0 120]]
+  /\ map om_hits (os_maps o) = [[mkHit 0 0 0 0; mkHit 0 4000 0 0]; []; []].
+Proof. exact ojn_tempo_times_refuted. Qed.
+Theorem C07_ojn_no_tempo_event_refuted :
+  wf_file w_notempo = true /\ read_now (encode_file w_notempo) = None /\ ojn_denote w_notempo <> None.
+Proof. exact ojn_no_tempo_event_refuted. Qed.
+Theorem C07_ojn_tempo_at_measure_0_refuted :
+  wf_file w_tempo0 = true /\ read_now (encode_file w_tempo0) = None /\ ojn_denote w_tempo0 <> None.
+Proof. exact ojn_tempo_at_measure_0_refuted. Qed.
+Theorem C07_ojn_hold_length_refuted :
+  wf_file w_trunc = true
+  /\ (exists o, read_with true true (encode_file w_trunc) = Some o /\ specb (1 # 1000000) w_trunc (Some o) = false
+        /\ map om_holds (os_maps o) = [[mkHold 0 0 5333 0 0]; []; []])
+  /\ (exists o, read_fixed (encode_file w_trunc) = Some o /\ specb 0 w_trunc (Some o) = true
+        /\ map om_holds (os_maps o) = [[mkHold 0 0 (16000 # 3) 0 0]; []; []]).
+Proof. exact ojn_hold_length_refuted. Qed.
+Theorem C07_ojn_now_guarded_no_notes : forall pkgs init,
+  Forall (fun e => is_bpm e = true) (concat pkgs) ->
+  exists rows, read_pkgs_now pkgs init = Some (mkOMap [] [] (mkBpm 0 init :: rows))
+    /\ Forall (fun r => b_off r = 0) rows.
+Proof. exact ojn_now_guarded_no_notes. Qed.
+Theorem C07_fixed_on_witnesses :
+  forallb (fun f => wf_file f && specb 0 f (read_fixed (encode_file f))) [w_sweep; w_notempo; w_tempo0; w_trunc] = true.
+Proof. exact ojn_fixed_on_witnesses. Qed.
+
+(* ---- non-vacuity: a well-formed file with three difficulties, four tempo events (measure 0 slot 0,
+   mid-measure 1 + 3/7, after the last note), taps and a long note spanning packages and measures on
+   columns 0, 3, 6, an autoplay package and trailing bytes: the repaired reader returns exactly what the
+   file denotes, and the header is decoded as laid out ---- *)
+Definition ex_file : ofile :=
+  mkFile w_hdr
+    [[mkPkg 0 1 1 [(0, f32_240)]; mkPkg 0 2 4 [(0, tap); (3, head_)]; mkPkg 1 1 7 [(3, f32_60)];
+      mkPkg 1 5 3 [(2, [5; 0; 200; 0])]; mkPkg 2 2 192 [(100, tail_)]; mkPkg 2 8 5 [(4, tap)];
+      mkPkg 9 1 2 [(1, f32_240)]; mkPkg 0 12 2 [(1, tap)]];
+     [mkPkg 3 4 6 [(1, head_); (5, tail_)]];
+     [mkPkg 5 1 1 [(0, f32_60)]]]%Z.
+Example C07_nontrivial_file :
+  wf_file ex_file = true
+  /\ specb 0 ex_file (read_fixed (encode_file ex_file ++ [1; 2; 3]%Z)) = true
+  /\ length (encode_file ex_file) = (300 + 8 * 10 + 4 * (1 + 4 + 7 + 3 + 192 + 5 + 2 + 2 + 6 + 1))%nat
+  /\ option_map (fun o => oh_title (os_hdr o)) (read_fixed (encode_file ex_file)) = Some [116]%Z.
+Proof. vm_compute. auto. Qed.
